@@ -52,7 +52,8 @@ class BlockLinearOperator(LinearOperator):
                 *range(positive_block_dim + 1, base_linear_op.dim() - 2),
                 positive_block_dim,
             )
-        super(BlockLinearOperator, self).__init__(to_linear_operator(base_linear_op))
+        base_linear_op = to_linear_operator(base_linear_op)
+        super(BlockLinearOperator, self).__init__(base_linear_op)
         self.base_linear_op = base_linear_op
 
     @abstractmethod
